@@ -98,6 +98,7 @@ type Lemma struct {
 	Local bool // axiom for later lemmas only, not for function obligations
 	Formula string // closed SMT formula (set when the lemma is generated)
 	Header  string
+	HeaderList []string
 	Name  string
 	Props []string
 	Text  string
